@@ -132,6 +132,14 @@ def class_truthy_ghost(clsq):
 
 # ------------------------------------------------------------------------------ ghost functions
 
+GLOBAL_OBJECTS = {}     # 'mod:NAME' -> static type of a module-level mutable object (lives in the pre-state heap)
+
+
+def global_object_sv(q):
+    a = z3.Int('g_' + q.replace(':', '_').replace('.', '_'))
+    return SV(VRef(a), GLOBAL_OBJECTS[q])
+
+
 GHOSTS = {}
 GHOST_AXIOMS = {}      # ghost name -> [(label, closed spec text, module)] assumed whenever the ghost is mentioned (E-* items)
 
@@ -270,6 +278,7 @@ def new_list(st, elems, elty=None, kind=K_LIST):
                 elty = Ty.join(elty, e.ty)
         ty = Ty.TList(elty or Ty.ANY)
     sv = SV(VRef(a), ty)
+    st.notes[('elems', str(VRef(a)))] = list(elems)      # statically known contents (dropped on mutation)
     if all(e.has_py for e in elems):
         sv.py = [e.py for e in elems] if kind == K_LIST else tuple(e.py for e in elems)
         sv.has_py = kind == K_TUPLE     # lists are mutable: concrete view only for tuples
@@ -413,6 +422,12 @@ def merge_states(items):
         guards.append(And(*fl))
         facts.append(al)
     if any(s.cur_exc is not states[0].cur_exc for s in states):
+        return items
+    # statically known dict keys / list elements differ between the branches: keep the paths apart
+    def _static(s):
+        return sorted((repr(k), repr([getattr(x, 'term', x) for x in v]) if isinstance(v, list) else repr(v))
+                      for k, v in s.notes.items() if k != 'calls')
+    if any(_static(s) != _static(states[0]) for s in states[1:]):
         return items
 
     def pick(terms):
